@@ -108,7 +108,7 @@ Walk(ev, P, i, refs, bad) ==
 \* sampling protocol changed - exact prediction still uses the scalar actually drawn)
 DrawnAsIntended(ev) == \A i \in 1..Len(ev.steps) : ~Has(ev.steps[i], "t") \/ Len(ev.out.drawn[i]) = 0 \/ Norm(ev.out.drawn[i]) = Norm(ev.steps[i].t)
 
-Fails(ev) == LET P == ParamsOf(ev) IN
+Fails(ev) == IF ev.op # "wk.history" THEN {"unknown-op"} ELSE LET P == ParamsOf(ev) IN
   (IF ParamsOk(ev, P) THEN {} ELSE {"pre.params"}) \cup Walk(ev, P, 1, <<>>, {}) \cup (IF DrawnAsIntended(ev) THEN {} ELSE {"diag.sampler-protocol"})
 Init == l \in 1..NLines /\ st = "todo"
 Next == /\ st = "todo"
